@@ -302,6 +302,7 @@ def run(check, repo: Repo) -> None:
     sites = [(mod, repo.func(f"{CP}:standardize_aberration_coefs")[1], "standardize_aberration_coefs"),
              (vmod, repo.func(f"{VAL}:validate_aberration_coefficients.set_aberrations.process_polar_params")[1], "validate_aberration_coefficients"),
              (repo.module(PM), repo.func(f"{PM}:ProbeBase.probe_params@setter.set_aberrations.process_polar_params")[1], "ProbeBase.probe_params")]
+    alias_first_wins: list = []
     for m_, fn, label in sites:
         chains = [n for n in ast.walk(fn) if isinstance(n, ast.If) and not (isinstance(getattr(n, "_parent", None), ast.If) and n in getattr(n._parent, "orelse", []))]
         chain = None
@@ -332,9 +333,32 @@ def run(check, repo: Repo) -> None:
         body = arms[idx_def][1]
         st = [s for s in body if isinstance(s, ast.Assign) and isinstance(s.targets[0], ast.Subscript) and is_const(s.targets[0].slice, "C10")]
         neg = bool(st) and isinstance(st[0].value, ast.UnaryOp) and isinstance(st[0].value.op, ast.USub)
+        if not st:
+            # `d.setdefault("C10", −defocus)`: the same value, but an explicit C10 already in the dict wins over the alias.  Equivalent for every dict that does not give both;
+            # it matters only where a caller validates stored canonical symbols MERGED with a raw user override (then the override's alias loses) — see the coupled rule below
+            sd = [c for s_ in body for c in ast.walk(s_) if isinstance(c, ast.Call) and isinstance(c.func, ast.Attribute) and c.func.attr == "setdefault" and len(c.args) == 2 and is_const(c.args[0], "C10")]
+            if sd:
+                neg = isinstance(sd[0].args[1], ast.UnaryOp) and isinstance(sd[0].args[1].op, ast.USub)
+                st = [ast.Expr(value=sd[0])]
+                alias_first_wins.append(label)
         check.decide(neg, "C12-R5", f"{label}: 'defocus' is stored as C10 = −defocus", unparse(st[0]) if st else "", m_.line(arms[idx_def][0]),
                      fail_detail=f"the defocus arm stores `{unparse(st[0]) if st else '?'}`")
     check.floor("alias-resolving sites", n_sites, 3)
+    # coupled: the hyper-parameter accessor of direct ptychography.  `out.update(validate(override))` canonicalises the override on its own; `out.update(override);
+    # validate(out)` hands the validator a dict that contains BOTH the stored C10 and the user's alias — sound only while the validator lets the later entry win.
+    DPm = "quantem.diffractive_imaging.direct_ptychography"
+    if repo.has(f"{DPm}:HyperparameterState.current_aberrations"):
+        dm_, ca_ = repo.func(f"{DPm}:HyperparameterState.current_aberrations")
+        merged_then_validated = any(isinstance(r, ast.Return) and isinstance(r.value, ast.Call) and (call_name(r.value) or "").endswith("validate_aberration_coefficients")
+                                    for r in ast.walk(ca_)) and any(isinstance(c.func, ast.Attribute) and c.func.attr == "update" and c.args and isinstance(c.args[0], ast.Name)
+                                                                   and c.args[0].id in func_params(ca_) for c in calls_in(ca_))
+        key_ = "current_aberrations × validate_aberration_coefficients: an alias given in an override replaces the stored coefficient"
+        if merged_then_validated and "validate_aberration_coefficients" in alias_first_wins:
+            check.violated("C12-R5", key_, "the override is merged raw into the stored coefficients and the merged dict validated once, while the validator writes aliases with setdefault "
+                           "(an explicit symbol wins): `defocus=d` in an override is silently ignored whenever the state already holds C10 — the surface used is not the one requested",
+                           dm_.line(ca_), definite=True)
+        else:
+            check.holds("C12-R5", key_, f"merged-then-validated: {merged_then_validated}; validator first-wins: {'validate_aberration_coefficients' in alias_first_wins}", dm_.line(ca_))
     pm, cpp = repo.func(f"{PM}:ProbeBase.check_probe_params")
     inv = [n for n in ast.walk(cpp) if isinstance(n, ast.Assign) and "C10" in unparse(n.value)]
     ok = bool(inv) and all(("-1 *" in unparse(n.value) or unparse(n.value).startswith("-")) for n in inv)
